@@ -13,10 +13,12 @@ func createLockFile(name string, perm os.FileMode) (LockFile, bool, error) {
 	if _, err := os.Stat(name); err == nil {
 		acquiredExisting = true
 	}
+	verifYield(1)
 	f, err := os.OpenFile(name, os.O_RDWR|os.O_CREATE, perm)
 	if err != nil {
 		return nil, false, err
 	}
+	verifYield(2)
 	if err := syscall.Flock(int(f.Fd()), syscall.LOCK_EX|syscall.LOCK_NB); err != nil {
 		if err == syscall.EWOULDBLOCK {
 			err = os.ErrExist
